@@ -69,20 +69,21 @@ type Stats struct {
 
 // Enum is handed to Enumerate.
 type Enum struct {
-	Tier  string
-	Seed  int64
-	shard int
-	nsh   int
-	only  string // replay: run only this key
-	skip  int64  // resume: skip the first n cases of this shard
-	seen  map[uint64]struct{}
-	st    Stats
-	cur   *os.File
-	out   *bufio.Writer
-	fails []Failure
-	mine  int64
-	crash bool
-	cs    *Ctx
+	Tier     string
+	Seed     int64
+	shard    int
+	nsh      int
+	only     string // replay: run only this key
+	skip     int64  // resume: skip the first n cases of this shard
+	seen     map[uint64]struct{}
+	st       Stats
+	cur      *os.File
+	out      *bufio.Writer
+	fails    []Failure
+	mine     int64
+	crash    bool
+	cs       *Ctx
+	sigCount map[string]int
 }
 
 // Ctx is handed to a case.
@@ -192,6 +193,17 @@ func (e *Enum) Do(key string, fn func(c *Ctx)) {
 }
 
 func (e *Enum) emitFail(f Failure) {
+	// at most 64 failing cases per signature and worker are passed on (the first
+	// ones of the smallest-first enumeration); the rest are only counted
+	if e.sigCount == nil {
+		e.sigCount = map[string]int{}
+	}
+	e.sigCount[f.Sig]++
+	e.st.Counters["failing_cases_total"]++
+	if e.sigCount[f.Sig] > 64 && e.only == "" {
+		e.st.Counters["failing_cases_not_listed_individually"]++
+		return
+	}
 	b, _ := json.Marshal(f)
 	fmt.Fprintf(e.out, "F %s\n", b)
 	e.out.Flush()
